@@ -1178,8 +1178,8 @@ func (c *Corpus) PermanodeTime(pn blob.Ref) (t time.Time, ok bool) {
 		return
 	}
 	var fi camtypes.FileInfo
-	ccRef, ccTime, ok := c.pnCamliContent(pn)
-	if ok {
+	ccRef, ccTime, hasContent := c.pnCamliContent(pn)
+	if hasContent {
 		fi = c.files[ccRef]
 	}
 	if fi.Time != nil {
@@ -1195,7 +1195,7 @@ func (c *Corpus) PermanodeTime(pn blob.Ref) (t time.Time, ok bool) {
 	if fi.ModTime != nil {
 		return time.Time(*fi.ModTime), true
 	}
-	if ok {
+	if hasContent {
 		return ccTime, true
 	}
 	return time.Time{}, false
